@@ -4,6 +4,12 @@ NOTES = ("All checks: bin/check <ID> --tier quick|thorough. Exit 0 held / 1 VIOL
          "Specification in spec/, harness in harness/, known findings in known_findings.jsonl; see DESIGN.md.")
 NOT_APPLICABLE = {}
 CHECKS = {
+    "C04": {
+        "level": "model_checking",
+        "technique": "TLA+ Flatten spec (parent-selector resolution incl. flattenVertically order and `&` through @at-root, bubbling of @media/@supports/unknown at-rules with media merging, every @at-root query, nested properties) as denotational reference; TLC checks it keeps every declaration exactly once and enumerates rule trees (MC_Nesting: exhaustive menus plus deep 'spine' chains); grass output read back independently and compared per (context path, selector)",
+        "text": "Bounded-exhaustive rule trees: all trees within length/depth bounds over three menus (core nesting, `&` forms, at-rules with all @at-root queries) and all chains of up to 5 nested blocks with a trailing sibling rule over media/supports/at-root and unknown-at-rule alphabets. For each tree the set of (at-rule context path, selector list) blocks, their declarations and the order of declarations written in one source block must equal the specification's flattening.",
+        "note": "Where blocks are split, hoisted or ordered relative to each other is deliberately not judged (the reference implementation's placement of copies is not part of the property); nested @media limited to a type query with a feature query inside (general merging is C17).",
+    },
     "C01": {
         "level": "exploration",
         "technique": "TLA+ Grass pipeline machine (the only terminal actions are Finish and Fail with a public error kind; checked by TLC) + MC_Input: TLC enumerates every atom sequence up to a bound in 12 lexical contexts and every single-mutation descriptor; the harness compiles each (x 3 syntaxes, 6 rotated option combinations, sandboxed workers with watchdog and memory limit); outcome batches validated by TLC (Trace_Total)",
